@@ -411,7 +411,7 @@ def _parse_facebook_url(url, allow_relative_urls=False):
         if parts[0] == "groups":
             group_id_or_handle = parts[1]
 
-            if NUMERIC_ID_RE.match(group_id_or_handle):
+            if is_facebook_id(group_id_or_handle):
                 return FacebookPost(parts[3], group_id=group_id_or_handle)
             return FacebookPost(parts[3], group_handle=group_id_or_handle)
 
